@@ -41,6 +41,13 @@ type numNegG[T any] struct {
 type numFirstG[T any] struct {
 	V T `@("-"? Num)`
 }
+// numeric captures into a slice of pointers and into a pointer to a pointer
+type numPtrSliceG[T any] struct {
+	V []*T `"=" (@Num ","?)*`
+}
+type numPtrPtrG[T any] struct {
+	V **T `"=" @Num`
+}
 type namedI16 int16
 type namedF32 float32
 type namedI64 int64
@@ -177,6 +184,28 @@ func numCheck[T any](res *xResult, name, kind string, bits int) {
 			}
 		}
 	}
+	pps, err1 := participle.Build[numPtrSliceG[T]](participle.Lexer(numLexer), participle.Elide("Whitespace", "Comment"))
+	ppp, err2 := participle.Build[numPtrPtrG[T]](participle.Lexer(numLexer), participle.Elide("Whitespace", "Comment"))
+	if err1 != nil || err2 != nil {
+		res.violate("Build numPtrSliceG / numPtrPtrG [%s]: %v %v", name, err1, err2)
+		return
+	}
+	for _, text := range []string{"1", "7", "300", "abc", "1e39"} {
+		want, ok := numOracle(kind, bits, text)
+		res.Evaluations += 2
+		vs, err := pps.ParseString("f", "="+text+", 7")
+		if ok && (err != nil || len(vs.V) != 2 || vs.V[0] == nil || fmt.Sprint(*vs.V[0]) != want) {
+			res.violate("%s captured into a slice of pointers from %q: %d elements stored, error %v; strconv gives %s and 7", name, "="+text+", 7", len(vs.V), err, want)
+		} else if !ok && err == nil {
+			res.violate("%s captured into a slice of pointers from %q: no error although strconv rejects %q", name, "="+text+", 7", text)
+		}
+		vp2, err := ppp.ParseString("f", "="+text)
+		if ok && (err != nil || vp2.V == nil || *vp2.V == nil || fmt.Sprint(**vp2.V) != want) {
+			res.violate("%s captured into a pointer to a pointer from %q: nothing stored, error %v; strconv gives %s", name, "="+text, err, want)
+		} else if !ok && err == nil {
+			res.violate("%s captured into a pointer to a pointer from %q: no error although strconv rejects it", name, "="+text)
+		}
+	}
 	for _, text := range numTexts {
 		// a conversion error is reported as such, at the captured token, also when an optional part after it was
 		// tried, got further and was abandoned
@@ -275,7 +304,7 @@ func checkNum(res *xResult, name, input, got string, err error, want string, ok 
 // TestVerif_C17_NumericOracle: numeric captures agree with strconv for every numeric kind.
 func TestVerif_C17_NumericOracle(t *testing.T) {
 	res := &xResult{Check: "numeric captures vs strconv", Property: "C17", Exhaustive: true,
-		Bound: fmt.Sprintf("%d texts (boundary values of every width, base prefixes, underscores, floats, junk) x {plain, '-' prefix token, '-' then elided whitespace, '-' then elided comment} x 17 field types (all int/uint/float kinds, named int16 / float32 / int64 / uint64 / float64), each as T, *T, []T filled by several captures, []T filled by one capture of three tokens, T followed by optional groups that are entered and abandoned (lookahead 3), T captured through a negation after elided tokens, T captured (with an optional sign token) at the very first token of the input, and T filled from a quoted string through Unquote (so also from the empty text and from text with spaces)", len(numTexts)),
+		Bound: fmt.Sprintf("%d texts (boundary values of every width, base prefixes, underscores, floats, junk) x {plain, '-' prefix token, '-' then elided whitespace, '-' then elided comment} x 17 field types (all int/uint/float kinds, named int16 / float32 / int64 / uint64 / float64), each as T, *T, []T filled by several captures, []*T and **T (5 texts), []T filled by one capture of three tokens, T followed by optional groups that are entered and abandoned (lookahead 3), T captured through a negation after elided tokens, T captured (with an optional sign token) at the very first token of the input, and T filled from a quoted string through Unquote (so also from the empty text and from text with spaces)", len(numTexts)),
 		Rule:  "distinct (field type, input) pairs; non-trivial = strconv rejects the text or several tokens are joined"}
 	_ = math.MaxInt8
 	_ = os.Getenv
